@@ -1,5 +1,6 @@
 """C05 — refined control-flow graph over-approximates every real execution."""
 import re, subprocess
+import zlib
 import common as C
 import cfgcommon as G
 import evmref as R
@@ -87,13 +88,13 @@ def oracle(case, reply):
         return None
     h = line.split(" ")[1]
     code = bytes.fromhex(h) if h != "-" else b""
-    rr = random.Random(hash(line) & 0xffffffff)
+    rr = random.Random(zlib.crc32(line.encode()))
     why = G.local_executions(code, reply, rr) or G.whole_execution(code, reply, rr)
     if why is None and R.uses_cancun_extra(code):
         # the same executions under the REAL Cancun EVM (finding D27): only reported when etk's own opcode set explains
         # everything else, so that a different violation is never hidden behind it
         with R.real_cancun():
-            rr = random.Random(hash(line) & 0xffffffff)
+            rr = random.Random(zlib.crc32(line.encode()))
             why2 = G.local_executions(code, reply, rr) or G.whole_execution(code, reply, rr)
         if why2:
             return R.D27 + why2
